@@ -29,6 +29,8 @@ func vconcretize(x int) int       { return x }
 func vfail(msg string)            {}
 func vthorough() bool             { return false }
 func vspawn(f func())             {}
+func vgate(op string)             {}
+func vregisterThread(id int)      {}
 func vcallAnon(parent string, args ...interface{}) {}
 func vspawnDaemon(f func())       {}
 func vrunThreads()                {}
@@ -51,7 +53,11 @@ import (
 	"fmt"
 	"math"
 	"os"
+	"runtime"
 	"strconv"
+	"strings"
+	"sync"
+	"time"
 )
 
 type vWit struct {
@@ -100,11 +106,15 @@ func vRunBatch(reg map[string]func()) {
 			continue
 		}
 		vWitness, vWitPos = it.Witness, 0
+		vLoadSchedule()
 		vRun(it.Harness, f)
 	}
 }
 
 func vnext(kind string) uint64 {
+	for vWitPos < len(vWitness) && (vWitness[vWitPos].Kind == "sched" || vWitness[vWitPos].Kind == "schedule") {
+		vWitPos++
+	}
 	if vWitPos >= len(vWitness) {
 		fmt.Println("VDIVERGE witness exhausted at", kind)
 		panic(vAssumeStop{})
@@ -224,9 +234,119 @@ func vconcretize(x int) int { return x }
 func vfail(msg string)      { fmt.Println("VFAIL " + msg) }
 func vthorough() bool       { return os.Getenv("VERIF_TIER") == "thorough" }
 
-// thread mode, native side: the threads run one after the other (one valid schedule); harnesses that need
-// a particular interleaving bring their own forced-schedule replay.
+// thread mode, native side: real goroutines are forced through the engine's schedule. Every visible
+// operation calls vgate(op); a goroutine passes its gate only when the next schedule entry is its own.
+// The schedule ("T0:start T1:start T0:Lock ...") travels in the witness as an entry of kind "schedule".
 var vThreads []func()
+
+type vSchedEntry struct {
+	thread int
+	op     string
+}
+
+var (
+	vSchedMu    sync.Mutex
+	vSchedCond  = sync.NewCond(&vSchedMu)
+	vSched      []vSchedEntry
+	vSchedPos   int
+	vSchedFree  bool // schedule exhausted or abandoned: everybody runs freely
+	vGoroutines = map[uint64]int{}
+)
+
+func vLoadSchedule() {
+	vSchedMu.Lock()
+	defer vSchedMu.Unlock()
+	vSched, vSchedPos, vSchedFree = nil, 0, true
+	vGoroutines = map[uint64]int{}
+	for _, w := range vWitness {
+		if w.Kind != "schedule" {
+			continue
+		}
+		for _, f := range strings.Fields(w.Val) {
+			var t int
+			var op string
+			if i := strings.IndexByte(f, ':'); i > 1 {
+				t, _ = strconv.Atoi(f[1:i])
+				op = f[i+1:]
+			}
+			vSched = append(vSched, vSchedEntry{t, op})
+		}
+		vSchedFree = len(vSched) == 0
+	}
+}
+
+// vScheduleStarts lists the threads in the order the schedule starts them.
+func vScheduleStarts() []int {
+	vSchedMu.Lock()
+	defer vSchedMu.Unlock()
+	var out []int
+	for _, e := range vSched {
+		if e.op == "start" {
+			out = append(out, e.thread)
+		}
+	}
+	return out
+}
+
+func vgid() uint64 {
+	var buf [64]byte
+	n := runtime.Stack(buf[:], false)
+	f := strings.Fields(string(buf[:n]))
+	id, _ := strconv.ParseUint(f[1], 10, 64)
+	return id
+}
+
+func vregisterThread(id int) {
+	vSchedMu.Lock()
+	vGoroutines[vgid()] = id
+	vSchedMu.Unlock()
+}
+
+// vgateAs blocks thread t at operation op until the schedule says it is its turn.
+func vgateAs(t int, op string) {
+	vSchedMu.Lock()
+	defer vSchedMu.Unlock()
+	deadline := time.Now().Add(20 * time.Second)
+	for !vSchedFree {
+		if vSchedPos >= len(vSched) {
+			vSchedFree = true
+			vSchedCond.Broadcast()
+			break
+		}
+		e := vSched[vSchedPos]
+		if e.thread == t {
+			if e.op != op && !(e.op == "start") {
+				fmt.Println("VDIVERGE schedule expects", e.op, "but thread", t, "is at", op)
+				vSchedFree = true
+				vSchedCond.Broadcast()
+				break
+			}
+			vSchedPos++
+			vSchedCond.Broadcast()
+			return
+		}
+		if time.Now().After(deadline) {
+			fmt.Println("VDIVERGE schedule stuck at", vSchedPos, "waiting for thread", e.thread, e.op, "while thread", t, "is at", op)
+			vSchedFree = true
+			vSchedCond.Broadcast()
+			break
+		}
+		// wake up periodically to notice the deadline
+		go func() { time.Sleep(50 * time.Millisecond); vSchedCond.Broadcast() }()
+		vSchedCond.Wait()
+	}
+}
+
+func vgate(op string) {
+	vSchedMu.Lock()
+	t, ok := vGoroutines[vgid()]
+	free := vSchedFree
+	vSchedMu.Unlock()
+	if !ok || free {
+		return
+	}
+	vgateAs(t, op)
+}
 
 func vspawn(f func())       { vThreads = append(vThreads, f) }
 func vspawnDaemon(f func()) {}
@@ -237,8 +357,8 @@ func vrunThreads() {
 		f()
 	}
 }
-func vyield()           {}
-func vwait()            {}
+func vyield()           { vgate("yield") }
+func vwait()            { vgate("wait"); runtime.Gosched() }
 func vthreadID() int    { return -1 }
 func vschedule() string { return "" }
 func vcallAnon(parent string, args ...interface{}) {
